@@ -34,3 +34,7 @@ def run(ctx, crate):
     D.rule_text_not_counted(ctx, crate)
     D.rule_draw_order(ctx, crate)
     D.rule_painted_is_measured(ctx, crate)
+    # "clears remove all of their rows": the empty frame of a MultiProgress that lost its last member is painted like any other
+    # (an early `nothing to paint` return leaves the wrapped rows of the last bar on screen and in the count: seed C19m)
+    from .c02 import rule_multi_draw_total
+    rule_multi_draw_total(ctx, crate)
